@@ -60,6 +60,26 @@ def _charge(v):
         return ("unreadable", s)
 
 
+def _i(v):
+    """integer field of a frame the library produced; a value that is no integer (NaN from a record the reader could not
+    make sense of, text) is kept as a marker so that it shows as a field difference, never as a harness failure"""
+    try:
+        return int(v)
+    except (TypeError, ValueError):
+        try:
+            return int(str(v).strip())
+        except (TypeError, ValueError):
+            return ("not-an-integer", _s(v))
+
+
+def _f(v):
+    try:
+        x = float(v)
+    except (TypeError, ValueError):
+        return ("not-a-number", _s(v))
+    return x if x == x else ("not-a-number", "nan")
+
+
 def logical(df):
     """neutral accessor: list of logical atoms from a parser_v2 DataFrame"""
     fmt = df.attrs.get("format")
@@ -67,23 +87,23 @@ def logical(df):
     for _, r in df.iterrows():
         if fmt == "PDB":
             rows.append({
-                "record": _s(r.get("record_type")), "serial": int(r.get("serial")), "name": _s(r.get("name")),
+                "record": _s(r.get("record_type")), "serial": _i(r.get("serial")), "name": _s(r.get("name")),
                 "altloc": _s(r.get("altLoc")), "resname": _s(r.get("resName")), "chain": _s(r.get("chainID")),
-                "resseq": int(r.get("resSeq")), "icode": _s(r.get("iCode")), "x": float(r.get("x")), "y": float(r.get("y")),
-                "z": float(r.get("z")), "occ": float(r.get("occupancy")), "bfac": float(r.get("tempFactor")),
-                "element": _s(r.get("element")), "charge": _charge(r.get("charge")), "model": int(r.get("model")),
+                "resseq": _i(r.get("resSeq")), "icode": _s(r.get("iCode")), "x": _f(r.get("x")), "y": _f(r.get("y")),
+                "z": _f(r.get("z")), "occ": _f(r.get("occupancy")), "bfac": _f(r.get("tempFactor")),
+                "element": _s(r.get("element")), "charge": _charge(r.get("charge")), "model": _i(r.get("model")),
             })
         elif fmt == "mmCIF":
             name = _s(r.get("auth_atom_id")) or _s(r.get("label_atom_id"))
             rows.append({
-                "record": _s(r.get("group_PDB")), "serial": int(_s(r.get("id"))), "name": name,
+                "record": _s(r.get("group_PDB")), "serial": _i(_s(r.get("id"))), "name": name,
                 "altloc": _s(r.get("label_alt_id")), "resname": _s(r.get("auth_comp_id")) or _s(r.get("label_comp_id")),
                 "chain": _s(r.get("auth_asym_id")) or _s(r.get("label_asym_id")),
-                "resseq": int(_s(r.get("auth_seq_id")) or _s(r.get("label_seq_id"))), "icode": _s(r.get("pdbx_PDB_ins_code")),
-                "x": float(r.get("Cartn_x")), "y": float(r.get("Cartn_y")), "z": float(r.get("Cartn_z")),
-                "occ": float(r.get("occupancy")), "bfac": float(r.get("B_iso_or_equiv")),
+                "resseq": _i(_s(r.get("auth_seq_id")) or _s(r.get("label_seq_id"))), "icode": _s(r.get("pdbx_PDB_ins_code")),
+                "x": _f(r.get("Cartn_x")), "y": _f(r.get("Cartn_y")), "z": _f(r.get("Cartn_z")),
+                "occ": _f(r.get("occupancy")), "bfac": _f(r.get("B_iso_or_equiv")),
                 "element": _s(r.get("type_symbol")), "charge": _charge(r.get("pdbx_formal_charge")),
-                "model": int(r.get("pdbx_PDB_model_num")),
+                "model": _i(r.get("pdbx_PDB_model_num")),
             })
         else:
             raise HarnessError(f"unknown frame format {fmt!r}")
@@ -91,6 +111,8 @@ def logical(df):
 
 
 def same(a, b, f):
+    if isinstance(a, tuple) or isinstance(b, tuple) or a is None or b is None:
+        return a == b  # a marker for an unreadable value equals nothing but itself
     if f in ("x", "y", "z"):
         return abs(a - b) <= 5e-4
     if f in ("occ", "bfac"):
@@ -107,7 +129,7 @@ def diff_tables(tag, want, got, single_model):
             if not same(a[f], b[f], f):
                 # a row-order problem shows up as several identity fields differing at once
                 ident = ("name", "resseq", "chain", "serial")
-                if sum(1 for g in ident if a[g] != b[g]) >= 2 and sorted(map(lambda r: (r["model"], r["serial"]), want)) == sorted(map(lambda r: (r["model"], r["serial"]), got)):
+                if sum(1 for g in ident if a[g] != b[g]) >= 2 and sorted(map(lambda r: (str(r["model"]), str(r["serial"])), want)) == sorted(map(lambda r: (str(r["model"]), str(r["serial"])), got)):
                     out.append(D(f"C09:{tag}:row-order", f"row {k}: expected serial {a['serial']} got {b['serial']}"))
                 else:
                     out.append(D(f"C09:{tag}:field:{f}", f"row {k} ({a['name']} {a['chain']}{a['resseq']}{a['icode']} model {a['model']}): {f} {a[f]!r} became {b[f]!r}"))
